@@ -439,8 +439,10 @@ class MockIncludeDirective:
         # get required section of text
         startline = self.options.get("start-line", None)
         endline = self.options.get("end-line", None)
-        file_content = "\n".join(split_lines(file_content)[startline:endline])
-        startline = startline or 0
+        file_lines = split_lines(file_content)
+        file_content = "\n".join(file_lines[startline:endline])
+        # the index of the first included line (a negative value counts from the end)
+        startline = slice(startline, endline).indices(len(file_lines))[0]
         for split_on_type in ["start-after", "end-before"]:
             split_on = self.options.get(split_on_type, None)
             if not split_on:
